@@ -1,5 +1,6 @@
 """C04 — the disqualification gate is fail-closed and survives storage."""
 import contextlib
+import json
 import copy
 import io
 
@@ -61,6 +62,12 @@ def cases(draw, family=None):
     c["ign_fit"] = draw(st.booleans())
     c["ign_pred"] = draw(st.booleans())
     c["stored"] = draw(st.booleans())
+    # how the model crosses storage: one JSON round trip, two of them, a to_dict() document loaded (twice from the same dict object;
+    # or once, then written out with json.dumps and loaded from that text)
+    c["store_route"] = draw(st.sampled_from(["json", "json", "json_twice", "dict", "dict_second_load", "dict_load_then_dump"]))
+    # predict() calls made on the same model and the same data object before the judged one: (override flag, aggregation index)
+    c["pre"] = draw(st.lists(st.tuples(st.booleans(), st.integers(0, 2)), max_size=2))
+    c["agg_i"] = draw(st.integers(0, 2))
     c["arg"] = draw(st.sampled_from(["own_reporting", "own_reporting", "own_baseline", "foreign", "other_tz", "unfitted"]))
     c["rep"] = draw(zoo.reporting(b))
     c["other_tz_i"] = draw(st.integers(0, 3))
@@ -196,10 +203,30 @@ def judge(c, rec):
     # ---- storage
     Model = zoo.model_class(fam)
     if c["stored"]:
-        m_used = Model.from_json(m.to_json())
+        route = c.get("store_route", "json")
+        cls = cls + ["store_route=" + route]
+        if route == "json":
+            m_used = Model.from_json(m.to_json())
+        elif route == "json_twice":
+            m_used = Model.from_json(Model.from_json(m.to_json()).to_json())
+        else:
+            # a stored document stays usable after it has been loaded: it can be loaded again and written out
+            doc = m.to_dict()
+            first = Model.from_dict(doc)
+            if route == "dict":
+                m_used = first
+            elif route == "dict_second_load":
+                m_used = Model.from_dict(doc)
+            else:
+                try:
+                    text = json.dumps(doc)
+                except TypeError as e:
+                    rec.violation(fam + "/stored-document-unusable-after-load", c, "json.dumps(document) after from_dict(document): %s" % short(e, 120))
+                    text = m.to_json()
+                m_used = Model.from_json(text)
         dq2 = sorted(w.qualified_name for w in m_used.disqualification)
         if dq2 != model_dq:
-            rec.violation(fam + "/stored-dq-differs", c, "%s -> %s" % (model_dq, dq2))
+            rec.violation(fam + "/stored-dq-differs", c, "%s -> %s (%s)" % (model_dq, dq2, route))
     else:
         m_used = m
     # ---- predict argument
@@ -228,35 +255,47 @@ def judge(c, rec):
             r2 = dict(c["rep"], n=max(c["rep"]["n"], 40) if ofam != "hourly" else min(c["rep"]["n"], 30))
             rep = zoo.build_reporting(ob, r2)
     must_raise = arg in ("unfitted", "foreign", "other_tz")
-    kw = {"ignore_disqualification": c["ign_pred"]}
-    try:
-        with contextlib.redirect_stdout(io.StringIO()):
-            out = m_used.predict(rep, **kw)
-        outcome = "frame"
-    except DisqualifiedModelError:
-        outcome = "DisqualifiedModelError"
-    except Exception as e:
-        outcome = "other:" + type(e).__name__
-        exc = e
     K = "%s/predict/%s" % (fam, arg)
-    if must_raise:
-        if outcome == "frame":
-            rec.violation(K + "/predicted-instead-of-raising", c, "predict returned a frame of %d rows for %s" % (len(out), arg))
-        else:
-            rec.expected(outcome)
-    else:
-        want = "DisqualifiedModelError" if (model_dq and not c["ign_pred"]) else "frame"
-        if outcome != want:
-            if outcome.startswith("other:"):
-                bkt = exc_bucket(exc)
-                if bkt is None:
-                    raise exc
-                rec.violation("%s/raises/%s" % (K, bkt), c, "%s: %s" % (type(exc).__name__, short(exc, 160)))
+    AGGS = [None, "monthly", "bimonthly"]
+    # the gate is judged on every call of a short history on the same model and data object: an earlier call (with the override,
+    # at another aggregation level) must not decide a later one
+    calls = [(bool(f), int(a)) for f, a in c.get("pre", [])] + [(bool(c["ign_pred"]), int(c.get("agg_i", 0)))]
+    cls = cls + ["calls=%d" % len(calls)]
+    if len(calls) > 1 and any(f for f, _ in calls[:-1]) and not calls[-1][0]:
+        cls = cls + ["override-then-plain"]
+    for pos, (flag, agg_i) in enumerate(calls):
+        kw = {"ignore_disqualification": flag}
+        if fam == "billing" and AGGS[agg_i] is not None:
+            kw["aggregation"] = AGGS[agg_i]
+        exc = None
+        try:
+            with contextlib.redirect_stdout(io.StringIO()):
+                out = m_used.predict(rep, **kw)
+            outcome = "frame"
+        except DisqualifiedModelError:
+            outcome = "DisqualifiedModelError"
+        except Exception as e:
+            outcome = "other:" + type(e).__name__
+            exc = e
+        tag = "" if pos == len(calls) - 1 and len(calls) == 1 else "/call%d-of-%d" % (pos + 1, len(calls))
+        if must_raise:
+            if outcome == "frame":
+                rec.violation(K + "/predicted-instead-of-raising" + tag, c, "predict returned a frame of %d rows for %s" % (len(out), arg))
             else:
-                rec.violation(K + "/wrong-outcome", c, "model DQ %s, ignore_disqualification=%s, stored=%s: got %s, expected %s" % (
-                    model_dq, c["ign_pred"], c["stored"], outcome, want))
-        elif outcome == "frame" and not isinstance(out, pd.DataFrame):
-            rec.violation(K + "/not-a-frame", c, type(out).__name__)
+                rec.expected(outcome)
+        else:
+            want = "DisqualifiedModelError" if (model_dq and not flag) else "frame"
+            if outcome != want:
+                if outcome.startswith("other:"):
+                    bkt = exc_bucket(exc)
+                    if bkt is None:
+                        raise exc
+                    rec.violation("%s/raises/%s" % (K, bkt), c, "%s: %s" % (type(exc).__name__, short(exc, 160)))
+                else:
+                    rec.violation(K + "/wrong-outcome" + tag, c, "model DQ %s, ignore_disqualification=%s, stored=%s, calls so far %s: got %s, expected %s" % (
+                        model_dq, flag, c["stored"], calls[:pos], outcome, want))
+            elif outcome == "frame" and not isinstance(out, pd.DataFrame):
+                rec.violation(K + "/not-a-frame", c, type(out).__name__)
     rec.case(c, bool(model_dq or data_dq or c["stored"]), cls + ["dq=%d" % bool(model_dq), "outcome=" + outcome.split(":")[0]])
 
 
